@@ -112,7 +112,7 @@ func c10Alphabet(names []string, fill bool, jumpOpt ...bool) func(raw json.RawMe
 		if creates < 4 {
 			for u := 0; u < 3; u++ {
 				for _, n := range names {
-					if have[fmt.Sprintf("%d/%s", u, n)] && !(jump && in.Jumped) {
+					if have[fmt.Sprintf("%d/%s", u, n)] && !(jump && in.Jumped) && len(n) < 200 {
 						continue // (after the counter jump the same consumer attaches once more)
 					}
 					c := mkCreate(u, n)
@@ -176,6 +176,8 @@ func init() {
 			{"counter0-case-and-blanks", 0, []string{"x", "X", "x ", " x"}, false, 3},
 			// the counter 2^32 records later, with sessions still open
 			{"counter7-jump", 7, []string{"x"}, false, 3},
+			// consumer names long enough for the reference to pass 255 octets (two sessions of one consumer)
+			{"counter0-long-names", 0, []string{strings.Repeat("n", 240), strings.Repeat("n", 1000)}, false, 3},
 		}
 		if rep.Tier == "thorough" {
 			scs[0].depth, scs[1].depth, scs[2].depth, scs[3].depth = 4, 4, 4, 5
